@@ -18,15 +18,95 @@ COMPONENTS = {'real': ['sfc_models.equation_solver.EquationSolver', 'sfc_models.
 ASSUMPTIONS = ['exogenous and initial-condition texts are evaluated independently with Python eval + math',
                'steady-state initialisation is off (as the property states)']
 
-list_paths = eqncases.list_paths
-simplifiers = eqncases.simplifiers
-valid = eqncases.valid
+def list_paths(case):
+    if case.get('kind') == 'ECON_IC':
+        return []
+    return eqncases.list_paths(case)
+
+
+def _simp(case):
+    if case.get('kind') == 'ECON_IC':
+        return
+    for f in eqncases.simplifiers:
+        for c in f(case):
+            yield c
+
+
+simplifiers = (_simp,)
+def valid(case):
+    return True if case.get('kind') == 'ECON_IC' else eqncases.valid(case)
 
 MISUSE = ['exo_short', 'exo_unparsable', 'ic_unparsable', 'exo_short_by_attr']
 
 
+def generate_econ_ic(seed, S):
+    """Model-level initial conditions (by full code and through the sector object), including exact zeros on
+    variables whose k=0 value would otherwise be non-zero."""
+    from .. import econgen
+    fam = S['swarm'].choice(['closed', 'capitalists', 'closed_fin'])
+    T = S['knobs'].randint(1, 3)
+    ops, info = econgen.gen_program(seed, family=fam, tight=False, T=T)
+    ops = [o for o in ops if o['op'] != 'AddInitialCondition']
+    e = info['economies'][0]
+    main_i = [i for i, o in enumerate(ops) if o['op'] == 'main'][0]
+    rng = S['params']
+    expect = []
+    cands = [(e['hh'], e['names']['HH'], 'F'), (e['gov'], e['names']['GOV'], 'F'), (e['bus'], e['names']['BUS'], 'F'),
+             (e['hh'], e['names']['HH'], 'AlphaIncome'), (e['hh'], e['names']['HH'], 'AlphaFin'),
+             (e['tf'], e['names']['TF'], 'TaxRate'), (e['hh'], e['names']['HH'], 'AfterTax'),
+             (e['hh'], e['names']['HH'], 'LAG_F'), (e['gov'], e['names']['GOV'], 'DEM_GOOD')]
+    new = []
+    for sh, code, var in rng.sample(cands, rng.randint(1, 4)):
+        if var == 'DEM_GOOD':
+            continue      # exogenous in these programs: initial conditions on exogenous variables are out of scope
+        val = rng.choice([0.0, 0.0, round(rng.uniform(-50, 150), 2), float(rng.randint(1, 90))])
+        if rng.random() < 0.5:
+            new.append({'op': 'AddInitialCondition', 'by': 'sector', 'sector': sh, 'var': var, 'value': val})
+        else:
+            new.append({'op': 'AddInitialCondition', 'by': 'code', 'model': info['model'], 'fullcode': code, 'var': var, 'value': val})
+        expect.append([code + '__' + var, val])
+    ops = ops[0:main_i] + new + ops[main_i:]
+    return {'kind': 'ECON_IC', 'profile': 'econ_ic', 'ops': ops, 'expect': {'ics': expect, 'T': T, 'misuse': None},
+            'block': {'eqs': [], 'lags': [], 'ics': [], 'exo': [], 'maxtime': T, 'err_tol': None},
+            'knobs': {}, 'drive': 'mono', 'faults': []}
+
+
+def execute_econ_ic(case):
+    from .. import econ
+    sess = econ.run_program(case['ops'])
+    viol = []
+    stats = {'runs': 1, 'profile': {'econ_ic': 1}, 'probes': {}}
+    mh = [o['model'] for o in case['ops'] if o['op'] == 'main'][0]
+    out, msg = econ.model_outcome(sess, mh)
+    stats['outcome'] = {out: 1}
+    ts = econ.series_of(sess, mh) if mh in sess.H else {}
+    if out == 'ok':
+        T = case['expect']['T']
+        last = {}
+        for name, val in case['expect']['ics']:
+            last[name] = val       # a later condition on the same variable wins (as lines of the block do)
+        for name, val in last.items():
+            if name not in ts:
+                viol.append(core.violation(ID, 'variable-missing', 'variable-missing', var=name))
+                break
+            if ts[name][0] != float(val):
+                viol.append(core.violation(ID, 'initial-condition-not-honoured', 'initial-condition-not-honoured:model-level',
+                                           var=name, got=ts[name][0], want=float(val)))
+                break
+            if float(val) == 0.0:
+                stats['probes']['explicit_zero_initial_condition'] = 1
+        for name, ser in ts.items():
+            if len(ser) != T + 1 and not viol:
+                viol.append(core.violation(ID, 'length-mismatch', 'length-mismatch', var=name, got=len(ser), want=T + 1))
+                break
+    return {'violations': viol, 'stats': stats, 'sig': core.digest([sorted(n for n, _ in case['expect']['ics']), out]),
+            'digest': core.digest([out, ts]), 'nontrivial': out == 'ok'}
+
+
 def generate(seed, tier):
     S = core.Streams(seed)
+    if S['swarm'].random() < 0.04:
+        return generate_econ_ic(seed, S)
     rng = S['topology']
     T = S['knobs'].randint(0, 9)
     knobs, tol_text = eqncases.pick_knobs(S['knobs'], T, tol_lo=1e-10)
@@ -107,6 +187,9 @@ def generate(seed, tier):
         knobs['prelude'] = {'eqs': [[ren[v], rn(r_)] for v, r_ in pre['eqs']], 'lags': [[ren[l], ren[s_], st] for l, s_, st in pre['lags']],
                             'ics': [[ren[v], t_] for v, t_ in pre['ics']], 'exo': [[ren[v], t_] for v, t_ in pre['exo']],
                             'maxtime': pre['maxtime'], 'err_tol': None}
+    elif S['swarm'].random() < 0.15 and case['expect']['misuse'] is None and knobs.get('maxtime_attr') is not None:
+        # the same text re-submitted after the solver-level horizon was changed (front ends do this)
+        knobs['prelude_same'] = S['prelude'].choice([0, 1, 2, knobs['maxtime_attr'] + 2])
     if S['knobs'].random() < 0.5:
         tv = eqncases.ensure_cycle_var(block, rng)
         eqncases.wrap_function(block, rng, 'tick', target=tv)
@@ -115,6 +198,8 @@ def generate(seed, tier):
 
 
 def execute(case):
+    if case.get('kind') == 'ECON_IC':
+        return execute_econ_ic(case)
     rec = eqn.run_block(case['block'], case['knobs'], case.get('faults', ()), case.get('drive', 'mono'))
     misuse = case['expect'].get('misuse')
     viol = eqn.check_c10(case['block'], case['knobs'], rec, case.get('drive', 'mono'), prop=ID, misuse=misuse)
